@@ -23,7 +23,7 @@
 From Shk Require Import Base.Prelude Model.Conduct Proofs.ConductProofs Model.Prompt Proofs.PromptProofs.
 
 (** Termination, part 1: every step other than a scene start decreases
-    [measure]; [measure (init h)] = 45 bounds their number in any run. *)
+    [measure]; [measure (init h)] = 48 bounds their number in any run. *)
 Theorem c07_conduct_step_bound : forall h ls s l s',
   run (init h) ls = Some s -> step s l = Some s' -> l <> LScene -> (measure s' < measure s)%nat.
 Proof. exact step_decreases. Qed.
@@ -109,6 +109,15 @@ Example c07_nonvacuous_cascade :
                               LFin CA ECancel; LPick CA; LFin CK ECancel; LPick CK; LPick CS; LPick CA; LPick CK;
                               LDefer true; LCleanup2 false] = Some s
             /\ returned s = Some EOther /\ g_cl2 s = true.
+Proof. eexists. vm_compute. repeat split. Qed.
+(** a signal while an action runs: the spotlight manager and the audition report
+    nil ahead of the prompter; conduct notes them, keeps waiting for the prompter,
+    then reads the (closed) channels in stage order, and returns nil. *)
+Example c07_nonvacuous_later_stage_reports_first :
+  exists s, run (init false) [LCleanup1 true; LScene; LQuiesce; LFin CS ENil; LPick CS; LFin CA ENil; LPick CA;
+                              LFinP false ENil; LPick CP; LPick CS; LPick CA; LFin CK ENil; LPick CK;
+                              LDefer false; LCleanup2 true] = Some s
+            /\ returned s = Some ENil /\ g_cl2 s = true /\ wt s = mkW false false true.
 Proof. eexists. vm_compute. repeat split. Qed.
 Example c07_nonvacuous_cleanup_fails :
   exists s, run (init false) [LCleanup1 false] = Some s /\ returned s = Some EOther /\ g_cl2 s = false.
